@@ -179,6 +179,9 @@ func R1Bounds(c *Ctx, scope []*ssa.Function, ruleSuffix string, floor int) {
 					ok = splitOnPhi(c, loads, fn, in)
 				}
 				if !ok {
+					ok = splitOnCell(c, loads, fn, in)
+				}
+				if !ok {
 					ok = proveAtCallers(c, fn, in)
 				}
 				construct := describeIdx(in)
